@@ -48,6 +48,7 @@ type StoreGenCfg struct {
 	PRead          float64 // token-carrying reader page
 	Readers        int
 	NoPlainObjects bool // UDA payloads: an object-valued property is a nested entity
+	PInvalid       float64 // a write is first sent with an entity the store must refuse (nil reference), then again without it
 }
 
 func poolNames(mk, stem string, n int) []string {
@@ -382,11 +383,33 @@ func (g *G) GenStoreHistory(c *StoreGenCfg) []Op {
 				parts = append(parts, Part{DS: ds, Ents: ents})
 				m.Batch(ds, ents)
 			}
+			if g.P(c.PInvalid) {
+				// refused as a whole after some (or all) of its entities have been processed; the client sends it again
+				bad := Op{K: "txn", M: map[string]any{"invalid": true}}
+				k := g.Intn(len(parts))
+				for pi, p := range parts {
+					ents := append([]Ent(nil), p.Ents...)
+					if pi == k {
+						ents = append(ents, Ent{"id": MkE + "bad", "props": map[string]any{}, "refs": map[string]any{g.Pick(c.Preds): nil}})
+					}
+					bad.Parts = append(bad.Parts, Part{DS: p.DS, Ents: ents})
+				}
+				ops = append(ops, bad)
+			}
 			ops = append(ops, Op{K: "txn", Parts: parts})
 		default:
 			ds := g.Pick(c.Datasets)
 			ents := g.batch(c, m, ds)
 			m.Batch(ds, ents)
+			if g.P(c.PInvalid) {
+				pos := len(ents)
+				if g.P(0.3) {
+					pos = g.Intn(len(ents) + 1)
+				}
+				bad := Ent{"id": MkE + "bad", "props": map[string]any{}, "refs": map[string]any{g.Pick(c.Preds): nil}}
+				be := append(append(append([]Ent(nil), ents[:pos]...), bad), ents[pos:]...)
+				ops = append(ops, Op{K: "batch", DS: ds, Ents: be, M: map[string]any{"invalid": true}})
+			}
 			ops = append(ops, Op{K: "batch", DS: ds, Ents: ents})
 		}
 		if g.P(0.2) {
